@@ -650,7 +650,8 @@ func UnpackRRWithHeader(h RR_Header, msg []byte, off int) (rr RR, off1 int, err 
 		return rr, off, nil
 	}
 
-	off, err = rr.unpack(msg, off)
+	// The RDATA ends at end, don't let the record read (or slice) beyond it.
+	off, err = rr.unpack(msg[:end], off)
 	if err != nil {
 		return nil, end, err
 	}
